@@ -415,8 +415,9 @@ impl<'a, F: IVP> SolOut for DefaultSolOut<'a, F> {
                 // the target, then interpolate to the exact point.
                 if !self.first_output_done && (xold - *x).abs() > self.tol {
                     let direction = (*x - xold).signum();
-                    // For backward integration (direction < 0), target is x0 - h0
-                    let target = self.x0 + direction * h0;
+                    // The target lies |h0| away from x0 in the direction of integration,
+                    // whatever the sign convention used for `first_step`.
+                    let target = self.x0 + direction * h0.abs();
                     
                     if direction * (*x - target) >= -self.tol {
                         // We've reached or passed the target point
